@@ -323,9 +323,12 @@ def check(run):
     run.rule("R03.2", "no dead parameter in any op forward pass or wrapper; one-line wrappers forward every parameter", floor=150)
     run.rule("R03.3", "op forward values have no data/control dependence on TRACK_GRAPH", floor=6)
     run.rule("R03.5", "kernel options hard-wired by an op (order=) equal NumPy's defaults", floor=1)
+    run.rule("R03.6", "Tensor.__array_ufunc__ evaluates forwarded (non-differentiable) ufuncs through getattr(ufunc, method), as NumPy would", floor=1)
     run.rule("R03.4", "Tensor._op hands Python scalars to the kernel unconverted; array operands are adopted as is", floor=2)
     r03_1(run)
     r03_2(run)
     r03_3(run)
     r03_4(run)
     r03_5(run)
+    from .c11 import ufunc_method_dispatch
+    ufunc_method_dispatch(run, "R03.6")
